@@ -217,4 +217,22 @@ def cookieLinesOld (morsels : List Text) : Except Err (List (Bytes × Bytes)) :=
   let joined := joinCRLF morsels
   if joined = [] then .ok [] else (splitCRLF joined).mapM cookieLineOld
 
+/-! ### everything `Response.finalize` hands to the server -/
+
+/-- inputs of the emission step, as found on the response object -/
+structure Resp where
+  code : Nat
+  reason : Text
+  /-- `response.headers.items()` (values already `str()`-ed) -/
+  items : List (Text × Text)
+  /-- `morsel.output()` for each morsel in `sorted(response.cookie.items())` order -/
+  morsels : List Text
+
+/-- REPAIRED `Response.finalize`: `(output_status, header_list)` -/
+def finalizeEmit (r : Resp) : Except Err (Bytes × List (Bytes × Bytes)) := do
+  let st ← statusLine r.code r.reason
+  let hs ← output r.items
+  let cs ← cookieLines r.morsels
+  pure (st, hs ++ cs)
+
 end CpModel.HeaderEnc
